@@ -337,9 +337,10 @@ NOT_APPLICABLE = {
 
 # Rules added after the fourth seeding round (DESIGN.md 11.6); appended to the claim text of their property by gen_manifest.py.
 ADDENDA = {
-    "C02": " (R2.8) no class derived from Part defines a non-identity __eq__ while the package walk recognises visited parts through a set.",
+    "C01": " (R1.6) the zip reader's member table holds every member of the archive (no filter by size).",
+    "C02": " (R2.5) a class-level cls.content_type is evaluated for every concrete subclass. (R2.8) no class derived from Part defines a non-identity __eq__ while the package walk recognises visited parts through a set.",
     "C03": " (R3.5c) a parameter is not handed to a refusing setter of another object after the document was changed; (R3.8) no element is "
-           "inserted from a class attribute / module global without a copy.",
+           "inserted - or returned by an element factory - from a class attribute / module global without a copy.",
     "C05": " Hand-written escapers are summarised as their chain of str.replace pairs (the order decides whether the chain re-escapes its own "
            "output); the name-based numeric exemption is confined to the chart writers.",
     "C06": " (R6.2 :projection) a used-set built through a partial projection (PackURI.idx) of names that follow a caller's template is reported.",
@@ -355,6 +356,6 @@ ADDENDA = {
     "C15": " (R15.4) ImagePart.scale derives the missing dimension from the native size, never from the pixel counts alone.",
     "C16": " (R16.2) on the refusing path of Presentation() the package argument is only formatted (no path-only function is applied to a stream).",
     "C17": " (R17.4) signed local quantities are brought to slide units with round(), not int(x + 0.5).",
-    "C20": " (R20.7) shape.adjustments holds one Adjustment of its own per guide of the preset's avLst, in order (no filter that drops guides, no "
+    "C20": " (R20.1m) every member from_xml hands out comes from the search over its own enumeration. (R20.7) shape.adjustments holds one Adjustment of its own per guide of the preset's avLst, in order (no filter that drops guides, no "
            "objects shared through a class-level cache).",
 }
